@@ -924,8 +924,15 @@ def df_convert(inp, W):
             js = stubs.JsonStub(m1.json, None)
             with stubs.patched(m1, "json", js):
                 text = data.to_json()
-            value = js.dumped[-1][0]
-            records = [dict(x) for x in value]
+            value, dkw = js.dumped[-1]
+            default = dkw.get("default")
+            def leaf(v):
+                # what the encoder does with a value that is not JSON-native: hands it to `default`
+                if v is None or isinstance(v, (bool, int, float, str)) or type(v).__name__ in ("SymPyInt", "SymPyFloat", "SymPyBool", "SymStr"):
+                    return v
+                if default is None: raise TypeError(f"Object of type {type(v).__name__} is not JSON serializable")
+                return default(v)
+            records = [{k: leaf(v) for k, v in dict(x).items()} for x in value]
             with stubs.patched(m2, "json", stubs.JsonStub(m2.json, records)):
                 back = di.DataFrame.from_json(text)
             return {"mid": records, "back": back, "recv": data}
@@ -1029,15 +1036,31 @@ class ReToken(str):
         return s
 
 def _re_stub():
+    """re as an uninterpreted library: every matching function returns a token that remembers the function, the pattern,
+    the flags and the other arguments, however it was reached (module function or compiled pattern)"""
     class Stub:
-        pass
+        IGNORECASE = I = 2; MULTILINE = M = 8; DOTALL = S = 16
+    def make(name, pattern, a, flags, k, text_result):
+        kw = dict(k); kw["flags"] = flags
+        args = ((pattern,) + tuple(a), tuple(sorted(kw.items())))
+        return ReToken(name, args) if text_result else ReResult(name, args)
     def mk(name, text_result=False):
-        def f(*a, **k):
-            return ReToken(name, (a, tuple(sorted(k.items())))) if text_result else ReResult(name, (a, tuple(sorted(k.items()))))
+        def f(pattern, *a, flags=0, **k):
+            return make(name, pattern, a, flags, k, text_result)
         return staticmethod(f)
-    for n in ("findall", "fullmatch", "match", "search", "split", "subn"):
+    names = ("findall", "fullmatch", "match", "search", "split", "subn")
+    for n in names:
         setattr(Stub, n, mk(n))
     Stub.sub = mk("sub", True)
+    class Compiled:
+        def __init__(self, pattern, flags=0): self.pattern = pattern; self.flags = flags
+    def cm(name, text_result=False):
+        def f(self, *a, **k):
+            return make(name, self.pattern, a, self.flags, k, text_result)
+        return f
+    for n in names: setattr(Compiled, n, cm(n))
+    Compiled.sub = cm("sub", True)
+    Stub.compile = staticmethod(lambda pattern, flags=0: Compiled(pattern, flags))
     return Stub
 
 @op
@@ -1082,12 +1105,13 @@ def regex_op(inp, W):
         if W.sym:
             from . import stubs
             st.enter_context(stubs.patched(rx, "re", _re_stub()))
+        kw = {"flags": inp["flags"]} if inp.get("flags") else {}
         if inp.get("scalar"):
-            return {"out": getattr(rx, fn)(*pos, inp["scalar_value"])}
+            return {"out": getattr(rx, fn)(*pos, inp["scalar_value"], **kw)}
         if inp.get("proxy"):
-            out = getattr(x.re, fn)(*pos)
+            out = getattr(x.re, fn)(*pos, **kw)
         else:
-            out = getattr(rx, fn)(*pos, x)
+            out = getattr(rx, fn)(*pos, x, **kw)
     return {"out": out}
 
 # ---------------------------------------------------------------------------- C20 rendering
